@@ -435,3 +435,29 @@ func specInflateNative(payload []byte) (out []byte, ok bool, inModel bool) {
 	out, err := io.ReadAll(r)
 	return out, err == nil, true
 }
+
+// specDeflateStoredF: like specDeflateStored; with bfinal the LAST data block
+// carries BFINAL=1 (a peer may end each message's deflate stream that way,
+// RFC 7692 7.2.3.4) and is followed by the empty non-final block whose tail is
+// stripped.
+func specDeflateStoredF(data []byte, blk int, bfinal bool) []byte {
+	if !bfinal || len(data) == 0 {
+		return specDeflateStored(data, blk, false)
+	}
+	var out []byte
+	for len(data) > 0 {
+		n := len(data)
+		if blk > 0 && n > blk {
+			n = blk
+		}
+		h := byte(0x00)
+		if n == len(data) {
+			h = 0x01
+		}
+		out = append(out, h, byte(n), byte(n>>8), ^byte(n), ^byte(n>>8))
+		out = append(out, data[:n]...)
+		data = data[n:]
+	}
+	out = append(out, 0x00)
+	return out
+}
